@@ -737,7 +737,7 @@ func parentMain(run *fw.Run, self, tmp string) func() {
 
 	fams := []map[string]any{}
 	for _, f := range sp.families {
-		fams = append(fams, map[string]any{"family": f.name, "letters": len(f.letters), "depth": f.depth, "power": f.power, "pair_repetitions": f.pairs, "indices": f.count})
+		fams = append(fams, map[string]any{"family": f.name, "letters": len(f.letters), "depth": f.depth, "power": f.power, "pair_repetitions": f.pairs, "prefixes": len(f.prefixes), "indices": f.count})
 	}
 	om := outcomes.Map()
 	return func() {
@@ -745,7 +745,7 @@ func parentMain(run *fw.Run, self, tmp string) func() {
 			Evaluations: evaluations, DistinctNontriv: words,
 			Rule:    "evaluation = one fresh default-configured instance executing one word (every word runs in 3 host environments x 2 engines x 2 simultaneously live instances: A calls the export wrappers from a clean stack, B runs a guest stack dirtier before every call and reaches the import through frameless forwarders); distinct = canonical words of maximal length (letters after proc_exit are not spelled out; every proper prefix is covered by the per-step trace of its extensions); all are non-trivial (each performs >=1 WASI call whose errno and memory window are compared); distinct_traces counts how many of them are observationally different",
 			Samples: samples.List(), Exhaustive: true, Outcomes: om,
-			Bounds: map[string]any{"wasi_functions": len(wasiFns), "letters": len(sp.alpha), "families": fams, "indices": sp.total,
+			Bounds: map[string]any{"wasi_functions": len(wasiFns), "letters": len(sp.alpha), "poll_list_letters": sp.nList, "main_letters": sp.nMain, "families": fams, "indices": sp.total,
 				"window_bytes": winSize, "environments": len(cs), "engines": 2, "instances_per_engine": 2, "call_shapes": len(shapeSuffix)},
 			Extra: map[string]any{"environments": perEnv, "wasi_calls_traced": steps, "distinct_traces": distinct,
 				"digests_compared": common * int64(len(cs)), "digests_differing_from_model": vsModel, "digests_differing_across_processes": cross,
@@ -792,8 +792,11 @@ func tryMain(args []string) {
 	if len(args) < 2 {
 		fmt.Println("usage: try <E0|E1|E2> <letter> [<letter>...]   letters:")
 		for _, l := range buildAlphabet() {
-			fmt.Println("  ", l.Name)
+			if l.Main {
+				fmt.Println("  ", l.Name)
+			}
 		}
+		fmt.Println("   poll_oneoff[<0..4 of clkR,clkA,rd0..rd3,wr0..wr3, comma separated>]")
 		os.Exit(2)
 	}
 	os.Exit(runCase("(command line)", replayCase{Env: args[0], Word: args[1:], Tier: "quick"}))
